@@ -185,12 +185,14 @@ theorem onConnectSlave_idem (c : Config) : onConnectSlave (onConnectSlave c) = o
 
 @[simp] theorem setDict_dfltSet (w : HWorld) (r : Ref) (d : HDict) : (w.setDict r d).dfltSet = w.dfltSet := rfl
 @[simp] theorem setDict_conns (w : HWorld) (r : Ref) (d : HDict) : (w.setDict r d).conns = w.conns := rfl
+@[simp] theorem setDict_servers (w : HWorld) (r : Ref) (d : HDict) : (w.setDict r d).servers = w.servers := rfl
 @[simp] theorem setDict_same (w : HWorld) (r : Ref) (d : HDict) : (w.setDict r d).dicts r = d := by
   simp [HWorld.setDict]
 theorem setDict_other (w : HWorld) (r r' : Ref) (d : HDict) (h : r' ≠ r) : (w.setDict r d).dicts r' = w.dicts r' := by
   simp [HWorld.setDict, h]
 @[simp] theorem hsetConn_dfltSet (w : HWorld) (i : Nat) (c : HConn) : (w.setConn i c).dfltSet = w.dfltSet := rfl
 @[simp] theorem hsetConn_dicts (w : HWorld) (i : Nat) (c : HConn) : (w.setConn i c).dicts = w.dicts := rfl
+@[simp] theorem hsetConn_servers (w : HWorld) (i : Nat) (c : HConn) : (w.setConn i c).servers = w.servers := rfl
 @[simp] theorem hsetConn_same (w : HWorld) (i : Nat) (c : HConn) : (w.setConn i c).conns i = c := by
   simp [HWorld.setConn]
 theorem hsetConn_other (w : HWorld) (i j : Nat) (c : HConn) (h : j ≠ i) : (w.setConn i c).conns j = w.conns j := by
@@ -198,21 +200,25 @@ theorem hsetConn_other (w : HWorld) (i j : Nat) (c : HConn) (h : j ≠ i) : (w.s
 
 @[simp] theorem addToSafe_nil (w : HWorld) (ch : List Ref) : addToSafe w ch [] = w := rfl
 
-/-- the dict object a good-mode open creates for connection `i` -/
-def goodOwnDict (w : HWorld) (d : Nat) (classic : Bool) : HDict :=
-  if classic then ((w.dicts .dflt).update (w.dicts (.app d))).update slaveDict
-  else (w.dicts .dflt).update (w.dicts (.app d))
+/-- the dict object a good-mode open creates for connection `i` from the dict object `arg` -/
+def goodOwnDict (w : HWorld) (arg : Ref) (classic : Bool) : HDict :=
+  if classic then ((w.dicts .dflt).update (w.dicts arg)).update slaveDict
+  else (w.dicts .dflt).update (w.dicts arg)
 
-theorem openConn_good_conns (w : HWorld) (i d : Nat) (classic : Bool) (k : Nat) :
-    (openConn Modes.good w i d classic).conns k = if k = i then .live [.own i] else w.conns k := by
+theorem openConn_good_conns (w : HWorld) (i : Nat) (arg : Ref) (classic : Bool) (k : Nat) :
+    (openConn Modes.good w i arg classic).conns k = if k = i then .live [.own i] else w.conns k := by
   cases classic <;> simp [openConn, Modes.good, initConn, headRef, HWorld.setConn]
 
-theorem openConn_good_dfltSet (w : HWorld) (i d : Nat) (classic : Bool) :
-    (openConn Modes.good w i d classic).dfltSet = w.dfltSet := by
+theorem openConn_good_dfltSet (w : HWorld) (i : Nat) (arg : Ref) (classic : Bool) :
+    (openConn Modes.good w i arg classic).dfltSet = w.dfltSet := by
   cases classic <;> simp [openConn, Modes.good, initConn, headRef]
 
-theorem openConn_good_dicts (w : HWorld) (i d : Nat) (classic : Bool) (r : Ref) :
-    (openConn Modes.good w i d classic).dicts r = if r = .own i then goodOwnDict w d classic else w.dicts r := by
+theorem openConn_good_servers (w : HWorld) (i : Nat) (arg : Ref) (classic : Bool) :
+    (openConn Modes.good w i arg classic).servers = w.servers := by
+  cases classic <;> simp [openConn, Modes.good, initConn, headRef]
+
+theorem openConn_good_dicts (w : HWorld) (i : Nat) (arg : Ref) (classic : Bool) (r : Ref) :
+    (openConn Modes.good w i arg classic).dicts r = if r = .own i then goodOwnDict w arg classic else w.dicts r := by
   cases classic <;> by_cases hr : r = .own i <;>
     simp [openConn, Modes.good, initConn, headRef, goodOwnDict, HWorld.setDict, hr]
 
@@ -247,36 +253,63 @@ def OwnInv (w : HWorld) : Prop :=
 theorem ownInv_init : OwnInv HWorld.init := by
   intro i ch h; simp [HWorld.init] at h
 
-theorem hstep_good_inv (w : HWorld) (e : HEvent) (h : OwnInv w) : OwnInv (hstep Modes.good w e) := by
-  intro j ch hj
+/-- the slot of connection `j` after one good-mode event -/
+theorem hstep_good_conns (w : HWorld) (e : HEvent) (j : Nat) :
+    (hstep Modes.good w e).conns j = w.conns j
+    ∨ (w.conns j = .fresh ∧ (hstep Modes.good w e).conns j = .live [.own j])
+    ∨ (∃ ch, w.conns j = .live ch ∧ (hstep Modes.good w e).conns j = .closed ch) := by
   cases e with
   | «open» i d classic =>
-    simp only [hstep] at hj
     cases hw : w.conns i with
     | fresh =>
-      simp only [hw, openConn_good_conns] at hj
       by_cases hji : j = i
-      · subst hji; simp at hj; exact hj.symm
-      · simp [hji] at hj; exact h j ch hj
-    | live c => simp only [hw] at hj; exact h j ch hj
-    | closed c => simp only [hw] at hj; exact h j ch hj
+      · subst hji; exact Or.inr (Or.inl ⟨hw, by simp [hstep, hw, openConn_good_conns]⟩)
+      · exact Or.inl (by simp [hstep, hw, openConn_good_conns, hji])
+    | live c => exact Or.inl (by simp [hstep, hw])
+    | closed c => exact Or.inl (by simp [hstep, hw])
   | close i =>
-    simp only [hstep] at hj
     cases hw : w.conns i with
-    | fresh => simp only [hw] at hj; exact h j ch hj
+    | fresh => exact Or.inl (by simp [hstep, hw])
     | live c =>
-      simp only [hw] at hj
       by_cases hji : j = i
-      · subst hji
-        simp at hj
-        exact h j ch (Or.inl (by rw [hw, hj]))
-      · rw [hsetConn_other _ _ _ _ hji] at hj; exact h j ch hj
-    | closed c => simp only [hw] at hj; exact h j ch hj
-  | access i => exact h j ch hj
-  | editDict r ov => exact h j ch hj
-  | mutDfltSet names => exact h j ch hj
+      · subst hji; exact Or.inr (Or.inr ⟨c, hw, by simp [hstep, hw]⟩)
+      · exact Or.inl (by simp [hstep, hw, hsetConn_other _ _ _ _ hji])
+    | closed c => exact Or.inl (by simp [hstep, hw])
+  | access i => exact Or.inl rfl
+  | editDict r ov => exact Or.inl rfl
+  | mutDfltSet names => exact Or.inl rfl
+  | newServer k d => cases hs : w.servers k <;> exact Or.inl (by simp [hstep, hs])
+  | serverConn i k classic =>
+    cases hw : w.conns i with
+    | fresh =>
+      cases hs : w.servers k with
+      | none => exact Or.inl (by simp [hstep, hw, hs])
+      | some r =>
+        by_cases hji : j = i
+        · subst hji; exact Or.inr (Or.inl ⟨hw, by simp [hstep, hw, hs, openConn_good_conns]⟩)
+        · exact Or.inl (by simp [hstep, hw, hs, openConn_good_conns, hji])
+    | live c => exact Or.inl (by simp [hstep, hw])
+    | closed c => exact Or.inl (by simp [hstep, hw])
+  | editServer k ov =>
+    cases hs : w.servers k with
+    | none => exact Or.inl (by simp [hstep, hs])
+    | some r => cases hr : r.editable <;> exact Or.inl (by simp [hstep, hs, hr])
 
-@[simp] theorem initConn_conns (m : InitMode) (w : HWorld) (i d : Nat) : (initConn m w i d).1.conns = w.conns := by
+theorem hstep_good_inv (w : HWorld) (e : HEvent) (h : OwnInv w) : OwnInv (hstep Modes.good w e) := by
+  intro j ch hj
+  rcases hstep_good_conns w e j with heq | ⟨_, hl⟩ | ⟨c, hlive, hc⟩
+  · rw [heq] at hj; exact h j ch hj
+  · rw [hl] at hj
+    rcases hj with hj | hj
+    · injection hj with hj; exact hj.symm
+    · cases hj
+  · rw [hc] at hj
+    rcases hj with hj | hj
+    · cases hj
+    · injection hj with hj; subst hj; exact h j c (Or.inl hlive)
+
+@[simp] theorem initConn_conns (m : InitMode) (w : HWorld) (i : Nat) (arg : Ref) :
+    (initConn m w i arg).1.conns = w.conns := by
   cases m <;> rfl
 
 @[simp] theorem addToSafe_conns (w : HWorld) (ch : List Ref) (names : List PyStr) :
@@ -289,8 +322,8 @@ theorem hstep_good_inv (w : HWorld) (e : HEvent) (h : OwnInv w) : OwnInv (hstep 
     | none => rfl
     | some v => cases v <;> rfl
 
-theorem openConn_conns_other (m : Modes) (w : HWorld) (i d : Nat) (classic : Bool) (j : Nat) (hj : j ≠ i) :
-    (openConn m w i d classic).conns j = w.conns j := by
+theorem openConn_conns_other (m : Modes) (w : HWorld) (i : Nat) (arg : Ref) (classic : Bool) (j : Nat) (hj : j ≠ i) :
+    (openConn m w i arg classic).conns j = w.conns j := by
   unfold openConn
   simp only [hsetConn_other _ _ _ _ hj]
   cases classic <;> cases m.classic.writesCallerDict <;> simp
@@ -308,6 +341,14 @@ theorem hstep_conns_other (m : Modes) (w : HWorld) (e : HEvent) (j : Nat) (h : e
   | access i => rfl
   | editDict r ov => rfl
   | mutDfltSet names => rfl
+  | newServer k d => cases hs : w.servers k <;> simp [hstep, hs]
+  | serverConn i k classic =>
+    have hj : j ≠ i := fun x => h (by simp [HEvent.conn, x])
+    cases hw : w.conns i <;> cases hs : w.servers k <;> simp [hstep, hw, hs, openConn_conns_other _ _ _ _ _ _ hj]
+  | editServer k ov =>
+    cases hs : w.servers k with
+    | none => simp [hstep, hs]
+    | some r => cases hr : r.editable <;> simp [hstep, hs, hr]
 
 /-- in the good mode no fair event writes the dict object of an ESTABLISHED connection, whoever's event it is -/
 theorem hstep_good_ownDict (w : HWorld) (e : HEvent) (j : Nat) (hf : e.fair = true) (hj : w.conns j ≠ .fresh) :
@@ -324,10 +365,32 @@ theorem hstep_good_ownDict (w : HWorld) (e : HEvent) (j : Nat) (hf : e.fair = tr
   | access i => rfl
   | editDict r ov =>
     cases r with
-    | own k => simp [HEvent.fair] at hf
+    | own k => simp [HEvent.fair, Ref.editable] at hf
+    | tmp k => simp [HEvent.fair, Ref.editable] at hf
     | dflt => simp [hstep, setDict_other]
     | app n => simp [hstep, setDict_other]
+    | srv n => simp [hstep, setDict_other]
+    | srvShared => simp [hstep, setDict_other]
   | mutDfltSet names => rfl
+  | newServer k d => cases hs : w.servers k <;> simp [hstep, hs]
+  | serverConn i k classic =>
+    cases hw : w.conns i with
+    | fresh =>
+      have hji : j ≠ i := fun x => hj (x ▸ hw)
+      cases hs : w.servers k <;> simp [hstep, hw, hs, openConn_good_dicts, hji, setDict_other]
+    | live c => simp [hstep, hw]
+    | closed c => simp [hstep, hw]
+  | editServer k ov =>
+    cases hs : w.servers k with
+    | none => simp [hstep, hs]
+    | some r =>
+      cases r with
+      | own n => simp [hstep, hs, Ref.editable]
+      | tmp n => simp [hstep, hs, Ref.editable]
+      | dflt => simp [hstep, hs, Ref.editable, setDict_other]
+      | app n => simp [hstep, hs, Ref.editable, setDict_other]
+      | srv n => simp [hstep, hs, Ref.editable, setDict_other]
+      | srvShared => simp [hstep, hs, Ref.editable, setDict_other]
 
 theorem hstep_good_dfltSet (w : HWorld) (e : HEvent) (hf : e.fair = true) :
     (hstep Modes.good w e).dfltSet = w.dfltSet := by
@@ -337,56 +400,69 @@ theorem hstep_good_dfltSet (w : HWorld) (e : HEvent) (hf : e.fair = true) :
   | access i => rfl
   | editDict r ov => rfl
   | mutDfltSet names => simp [HEvent.fair] at hf
+  | newServer k d => cases hs : w.servers k <;> simp [hstep, hs]
+  | serverConn i k classic =>
+    cases hw : w.conns i <;> cases hs : w.servers k <;> simp [hstep, hw, hs, openConn_good_dfltSet]
+  | editServer k ov =>
+    cases hs : w.servers k with
+    | none => simp [hstep, hs]
+    | some r => cases hr : r.editable <;> simp [hstep, hs, hr]
 
-/-- rpyc itself (open / close / requests) never writes the module defaults nor a dict object of the application -/
-theorem hstep_good_sharedDicts (w : HWorld) (e : HEvent) (r : Ref) (hr : ∀ k, r ≠ .own k)
-    (he : ∀ ov, e ≠ .editDict r ov) : (hstep Modes.good w e).dicts r = w.dicts r := by
+/-- dict objects that belong to the application: the module defaults, its settings dicts, its servers' own dicts -/
+def Ref.appOwned : Ref → Bool
+  | .dflt => true
+  | .app _ => true
+  | .srv _ => true
+  | .srvShared => true
+  | _ => false
+
+/-- may this event, as far as its own text says, edit the application's dict object `r`?  (an edit through a server
+goes to whatever object that server holds, so it is counted for every `r`) -/
+def HEvent.mayEdit (r : Ref) : HEvent → Bool
+  | .editDict r' _ => r' == r
+  | .editServer _ _ => true
+  | _ => false
+
+/-- rpyc itself (connects, per-client dicts of a server, closes, requests, server construction) never writes a dict
+object of the application: only the application's own edits do -/
+theorem hstep_good_sharedDicts (w : HWorld) (e : HEvent) (r : Ref) (hr : r.appOwned = true)
+    (he : e.mayEdit r = false) : (hstep Modes.good w e).dicts r = w.dicts r := by
+  have hown : ∀ k, r ≠ .own k := by intro k h; subst h; simp [Ref.appOwned] at hr
+  have htmp : ∀ k, r ≠ .tmp k := by intro k h; subst h; simp [Ref.appOwned] at hr
   cases e with
   | «open» i d classic =>
-    cases hw : w.conns i <;> simp [hstep, hw, openConn_good_dicts, hr i]
+    cases hw : w.conns i <;> simp [hstep, hw, openConn_good_dicts, hown i]
   | close i => cases hw : w.conns i <;> simp [hstep, hw]
   | access i => rfl
   | editDict r' ov =>
-    have : r ≠ r' := fun x => he ov (by rw [x])
+    have : r ≠ r' := by intro x; subst x; simp [HEvent.mayEdit] at he
     simp [hstep, setDict_other _ _ _ _ this]
   | mutDfltSet names => rfl
+  | newServer k d => cases hs : w.servers k <;> simp [hstep, hs]
+  | serverConn i k classic =>
+    cases hw : w.conns i <;> cases hs : w.servers k <;>
+      simp [hstep, hw, hs, openConn_good_dicts, hown i, setDict_other _ _ _ _ (htmp i)]
+  | editServer k ov => simp [HEvent.mayEdit] at he
 
 /-- **frozen**: in the good mode, an established connection's configuration survives every fair event -/
 theorem hstep_good_frozen (w : HWorld) (e : HEvent) (j : Nat) (hinv : OwnInv w) (hf : e.fair = true)
     (hj : w.conns j ≠ .fresh) : (hstep Modes.good w e).cfgOf j = w.cfgOf j ∧ (hstep Modes.good w e).conns j ≠ .fresh := by
   have hd := hstep_good_ownDict w e j hf hj
   have hs := hstep_good_dfltSet w e hf
-  have key : ∀ ch, ch = [Ref.own j] → (hstep Modes.good w e).cfgOfChain ch = w.cfgOfChain ch := by
-    intro ch hch; subst hch
-    exact cfgOfChain_congr _ _ _ (by intro r hr; simp at hr; subst hr; exact hd) hs
-  by_cases hc : e.conn = some j
-  · cases e with
-    | «open» i d classic =>
-      simp only [HEvent.conn, Option.some.injEq] at hc; subst hc
-      cases hw : w.conns i with
-      | fresh => exact absurd hw hj
-      | live c => simp [hstep, hw, HWorld.cfgOf]
-      | closed c => simp [hstep, hw, HWorld.cfgOf]
-    | close i =>
-      simp only [HEvent.conn, Option.some.injEq] at hc; subst hc
-      cases hw : w.conns i with
-      | fresh => exact absurd hw hj
-      | live c =>
-        have hch := hinv i c (Or.inl hw)
-        have := key c hch
-        simp only [hstep, hw] at this ⊢
-        simp [HWorld.cfgOf, hw, this]
-      | closed c => simp [hstep, hw, HWorld.cfgOf]
-    | access i => exact ⟨rfl, hj⟩
-    | editDict r ov => simp [HEvent.conn] at hc
-    | mutDfltSet names => simp [HEvent.conn] at hc
-  · have hcs := hstep_conns_other Modes.good w e j hc
-    refine ⟨?_, by rw [hcs]; exact hj⟩
-    simp only [HWorld.cfgOf, hcs]
+  have key : (hstep Modes.good w e).cfgOfChain [Ref.own j] = w.cfgOfChain [Ref.own j] :=
+    cfgOfChain_congr _ _ _ (by intro r hr; simp at hr; subst hr; exact hd) hs
+  rcases hstep_good_conns w e j with heq | ⟨hfresh, _⟩ | ⟨c, hlive, hc⟩
+  · refine ⟨?_, by rw [heq]; exact hj⟩
+    simp only [HWorld.cfgOf, heq]
     cases hw : w.conns j with
     | fresh => exact absurd hw hj
-    | live c => exact key c (hinv j c (Or.inl hw))
-    | closed c => exact key c (hinv j c (Or.inr hw))
+    | live c => rw [hinv j c (Or.inl hw)]; exact key
+    | closed c => rw [hinv j c (Or.inr hw)]; exact key
+  · exact absurd hfresh hj
+  · refine ⟨?_, by rw [hc]; simp⟩
+    have hch := hinv j c (Or.inl hlive)
+    simp only [HWorld.cfgOf, hc, hlive, hch]
+    exact key
 
 theorem hrun_good_inv (evs : List HEvent) (w : HWorld) (h : OwnInv w) : OwnInv (hrun Modes.good w evs) := by
   induction evs generalizing w with
@@ -410,8 +486,8 @@ theorem hrun_conns_other (m : Modes) (evs : List HEvent) (w : HWorld) (j : Nat) 
     simp only [hrun]
     rw [ih _ (fun x hx => h x (List.mem_cons_of_mem _ hx)), hstep_conns_other m w e j (h e (List.mem_cons_self ..))]
 
-theorem hrun_good_sharedDicts (evs : List HEvent) (w : HWorld) (r : Ref) (hr : ∀ k, r ≠ .own k)
-    (he : ∀ e ∈ evs, ∀ ov, e ≠ .editDict r ov) : (hrun Modes.good w evs).dicts r = w.dicts r := by
+theorem hrun_good_sharedDicts (evs : List HEvent) (w : HWorld) (r : Ref) (hr : r.appOwned = true)
+    (he : ∀ e ∈ evs, e.mayEdit r = false) : (hrun Modes.good w evs).dicts r = w.dicts r := by
   induction evs generalizing w with
   | nil => rfl
   | cons e es ih =>
@@ -426,5 +502,90 @@ theorem hrun_good_dfltSet (evs : List HEvent) (w : HWorld) (hf : ∀ e ∈ evs, 
   | cons e es ih =>
     simp only [hrun]
     rw [ih _ (fun x hx => hf x (List.mem_cons_of_mem _ hx)), hstep_good_dfltSet w e (hf e (List.mem_cons_self ..))]
+
+/-! #### servers -/
+
+/-- every server holds either the caller's dict object it was given, or the one it made for itself -/
+def SrvInv (w : HWorld) : Prop := ∀ k r, w.servers k = some r → r = .srv k ∨ ∃ d, r = .app d
+
+theorem srvInv_init : SrvInv HWorld.init := by
+  intro k r h; simp [HWorld.init] at h
+
+theorem hstep_good_servers (w : HWorld) (e : HEvent) (k : Nat) :
+    (hstep Modes.good w e).servers k = w.servers k
+    ∨ (w.servers k = none ∧ ∃ d, e = .newServer k d ∧ (hstep Modes.good w e).servers k = some (serverRef Modes.good k d)) := by
+  cases e with
+  | «open» i d classic => cases hw : w.conns i <;> simp [hstep, hw, openConn_good_servers]
+  | close i => cases hw : w.conns i <;> simp [hstep, hw]
+  | access i => exact Or.inl rfl
+  | editDict r ov => exact Or.inl rfl
+  | mutDfltSet names => exact Or.inl rfl
+  | newServer k' d =>
+    cases hs : w.servers k' with
+    | some r => exact Or.inl (by simp [hstep, hs])
+    | none =>
+      by_cases hk : k = k'
+      · subst hk; exact Or.inr ⟨hs, d, rfl, by simp [hstep, hs]⟩
+      · exact Or.inl (by simp [hstep, hs, hk])
+  | serverConn i k' classic =>
+    cases hw : w.conns i <;> cases hs : w.servers k' <;> simp [hstep, hw, hs, openConn_good_servers]
+  | editServer k' ov =>
+    cases hs : w.servers k' with
+    | none => exact Or.inl (by simp [hstep, hs])
+    | some r => cases hr : r.editable <;> exact Or.inl (by simp [hstep, hs, hr])
+
+theorem hstep_good_srvInv (w : HWorld) (e : HEvent) (h : SrvInv w) : SrvInv (hstep Modes.good w e) := by
+  intro k r hr
+  rcases hstep_good_servers w e k with heq | ⟨_, d, _, hnew⟩
+  · rw [heq] at hr; exact h k r hr
+  · rw [hnew] at hr
+    injection hr with hr
+    subst hr
+    cases d with
+    | none => exact Or.inl (by simp [serverRef, Modes.good])
+    | some d => exact Or.inr ⟨d, by simp [serverRef]⟩
+
+theorem hrun_good_srvInv (evs : List HEvent) (w : HWorld) (h : SrvInv w) : SrvInv (hrun Modes.good w evs) := by
+  induction evs generalizing w with
+  | nil => exact h
+  | cons e es ih => exact ih _ (hstep_good_srvInv w e h)
+
+/-- one good-mode event leaves server `k`'s own dict object alone unless it is an edit of that very object: a direct
+one, or one through a server — and the only server holding `srv k` is server `k` -/
+theorem hstep_good_serverDict (w : HWorld) (e : HEvent) (k : Nat) (hinv : SrvInv w)
+    (h1 : ∀ ov, e ≠ .editDict (.srv k) ov) (h2 : ∀ ov, e ≠ .editServer k ov) :
+    (hstep Modes.good w e).dicts (.srv k) = w.dicts (.srv k) := by
+  cases e with
+  | editServer k' ov =>
+    have hk : k' ≠ k := fun x => h2 ov (by rw [x])
+    cases hs : w.servers k' with
+    | none => simp [hstep, hs]
+    | some r =>
+      have hne : Ref.srv k ≠ r := by
+        rcases hinv k' r hs with rfl | ⟨d, rfl⟩
+        · intro x; injection x with x; exact hk x.symm
+        · intro x; cases x
+      cases hr : r.editable <;> simp [hstep, hs, hr, setDict_other _ _ _ _ hne]
+  | editDict r ov =>
+    have hne : Ref.srv k ≠ r := fun x => h1 ov (by rw [x])
+    simp [hstep, setDict_other _ _ _ _ hne]
+  | «open» i d classic => cases hw : w.conns i <;> simp [hstep, hw, openConn_good_dicts]
+  | close i => cases hw : w.conns i <;> simp [hstep, hw]
+  | access i => rfl
+  | mutDfltSet names => rfl
+  | newServer k' d => cases hs : w.servers k' <;> simp [hstep, hs]
+  | serverConn i k' classic =>
+    cases hw : w.conns i <;> cases hs : w.servers k' <;> simp [hstep, hw, hs, openConn_good_dicts, setDict_other]
+
+theorem hrun_good_serverDict (evs : List HEvent) (w : HWorld) (k : Nat) (hinv : SrvInv w)
+    (h1 : ∀ e ∈ evs, ∀ ov, e ≠ .editDict (.srv k) ov) (h2 : ∀ e ∈ evs, ∀ ov, e ≠ .editServer k ov) :
+    (hrun Modes.good w evs).dicts (.srv k) = w.dicts (.srv k) := by
+  induction evs generalizing w with
+  | nil => rfl
+  | cons e es ih =>
+    simp only [hrun]
+    rw [ih _ (hstep_good_srvInv w e hinv) (fun x hx => h1 x (List.mem_cons_of_mem _ hx))
+        (fun x hx => h2 x (List.mem_cons_of_mem _ hx)),
+      hstep_good_serverDict w e k hinv (h1 e (List.mem_cons_self ..)) (h2 e (List.mem_cons_self ..))]
 
 end Rpyc.Policy
